@@ -10,6 +10,7 @@ func init() {
 		Phases: []phase{
 			{Name: "shim", Pkg: "./workers/c17", Shim: true, QuickShards: 12, ThorShards: 16, QuickTO: 6 * time.Minute},
 			{Name: "real", Pkg: "./workers/c17", QuickShards: 12, ThorShards: 16, QuickTO: 6 * time.Minute},
+			{Name: "conc", Pkg: "./workers/c17", QuickShards: 12, ThorShards: 16, QuickTO: 6 * time.Minute},
 		},
 	})
 }
